@@ -24,7 +24,7 @@ func init() {
 	ev.Register(&ev.Check{
 		ID:          "C14",
 		Level:       "exploration",
-		Rule:        "accepted texts S (all rule-free JS-core renderings <= 3 nodes in canonical and compact layout, annotated/noted variants ending in every token class, type shortcuts, enum rule texts incl. comments, JSON documents, regex tokens) x separators (none and every run of 1..3 blanks over {space, tab, LF, CRLF}) x trailing texts from a directive-like alphabet {x, GET /, TYPE @a, Body, 200, @a, :, ',', }, ], \"q\"} restricted to the two admitted shapes (blank/line break then foreign text; a foreign byte directly after a closing bracket or quote): Len must equal len(S), on a fresh object and on an object that has been used before (after Check / GetAST / Values / Pattern, and for documents after the stream was read to its end); plus EVERY truncation of every plain-JSON S: a lexically incomplete prefix (reference PDA live and not accepting) must make Len fail. Non-trivial = distinct (role, S, separator, trailing text).",
+		Rule:        "accepted texts S (all rule-free JS-core renderings <= 3 nodes in canonical and compact layout, annotated/noted variants ending in every token class, type shortcuts, enum rule texts incl. comments, JSON documents, regex tokens) x separators (none and every run of 1..3 blanks over {space, tab, LF, CRLF}) x trailing texts from a directive-like alphabet {x, GET /, TYPE @a, Body, 200, @a, :, ',', }, ], \"q\", and six texts holding line breaks such as x<LF>y} restricted to the two admitted shapes (blank/line break then foreign text; a foreign byte directly after a closing bracket or quote): Len must equal len(S), on a fresh object and on an object that has been used before (after Check / GetAST / Values / Pattern, and for documents after the stream was read to its end); plus EVERY truncation of every plain-JSON S: a lexically incomplete prefix (reference PDA live and not accepting) must make Len fail. Non-trivial = distinct (role, S, separator, trailing text).",
 		Run:         run,
 		Replay:      replay,
 		QuickBudget: 70 * time.Second,
@@ -118,7 +118,9 @@ var seps = func() []string {
 	rec("", 0)
 	return append(out, "\n\n \t\n\n", " \r\n \r\n ")
 }()
-var trails = []string{"x", "GET /", "TYPE @a", "Body", "200", "@a", ":", ",", "}", "]", `"q"`}
+var trails = []string{"x", "GET /", "TYPE @a", "Body", "200", "@a", ":", ",", "}", "]", `"q"`,
+	// foreign text that itself holds line breaks (one foreign byte, then the next line)
+	"x\n", "x\ny", "X\r\nGET /b", ",\nz", "}\n\n", "xy\nz"}
 
 func hasLineBreak(s string) bool { return strings.ContainsAny(s, "\r\n") }
 
